@@ -17,6 +17,10 @@ var Mapping = seq.Mapping{
 	"v":        seq.NewSingleType(seq.TokenizerTypeKeyword, "", 0),
 	"u":        seq.NewSingleType(seq.TokenizerTypeKeyword, "", 0),
 	"d":        seq.NewSingleType(seq.TokenizerTypeKeyword, "", 0),
+	"b":        seq.NewSingleType(seq.TokenizerTypeKeyword, "", 0),
+	"s":        seq.NewSingleType(seq.TokenizerTypeKeyword, "", 0),
+	"p":        seq.NewSingleType(seq.TokenizerTypeKeyword, "", 0),
+	"q":        seq.NewSingleType(seq.TokenizerTypeKeyword, "", 0),
 	"m":        seq.NewSingleType(seq.TokenizerTypeText, "", 0),
 	"_exists_": seq.NewSingleType(seq.TokenizerTypeKeyword, "", 0),
 }
